@@ -6,6 +6,8 @@ import (
 	"encoding/json"
 	"fmt"
 	"net/http"
+	"sort"
+	"strconv"
 	"strings"
 
 	"github.com/getkin/kin-openapi/openapi3"
@@ -80,6 +82,39 @@ func verifSchemaAccepts(doc, op string, parts map[string]any) bool {
 			panic(err)
 		}
 		return out
+	}
+	for k, body := range parts {
+		if !strings.HasPrefix(k, "response:") {
+			continue
+		}
+		code, _ := strconv.Atoi(strings.TrimPrefix(k, "response:"))
+		rr := o.Responses.Status(code)
+		if rr == nil || rr.Value == nil {
+			return false
+		}
+		if len(rr.Value.Content) == 0 {
+			return body == nil
+		}
+		var names []string
+		for mt := range rr.Value.Content {
+			names = append(names, mt)
+		}
+		sort.Strings(names)
+		pick := names[0]
+		for _, mt := range names {
+			if strings.Contains(mt, "json") {
+				pick = mt
+				break
+			}
+		}
+		sch := rr.Value.Content[pick].Schema
+		if sch == nil {
+			return true
+		}
+		if body == nil {
+			return false
+		}
+		return sch.Value.VisitJSON(generic(body)) == nil
 	}
 	for _, pr := range o.Parameters {
 		p := pr.Value
